@@ -31,6 +31,8 @@ def corpus_cases():
     res = []
     cdir = os.path.join(C.VERIF, "corpus", "c12")
     for n in sorted(os.listdir(cdir)) if os.path.isdir(cdir) else []:
+        if not n.endswith(".case"):
+            continue
         cfg, hist = [], []
         for l in open(os.path.join(cdir, n)):
             l = l.rstrip("\n").replace("{REPO}", C.REPO)
